@@ -81,3 +81,61 @@ func (c *FnCtx) declareVar(st *State, obj types.Object, v Val) {
 	}
 	st.vars[obj] = v
 }
+
+// pureResult: i-th result of a `pure` function as an uninterpreted function of its
+// arguments and of the heap cells listed in the contract's `reads` clause.
+func (c *FnCtx) pureResult(st *State, fn *types.Func, ct *Contract, recv *Val, args []Val, i int) Val {
+	sig := fn.Type().(*types.Signature)
+	rt := sig.Results().At(i).Type()
+	name := "pf_" + sanitize(shortKey(ct.Key)) + "_" + itoa(int64(i))
+	var terms, sorts []string
+	if recv != nil {
+		terms = append(terms, recv.T)
+		sorts = append(sorts, c.sortOf(orInt(recv.Typ)))
+	}
+	for k, a := range args {
+		t := a.Typ
+		if k < sig.Params().Len() {
+			if _, isTP := types.Unalias(sig.Params().At(k).Type()).(*types.TypeParam); !isTP {
+				t = sig.Params().At(k).Type()
+			}
+		}
+		terms = append(terms, a.T)
+		sorts = append(sorts, c.sortOf(orInt(t)))
+	}
+	for _, r := range ct.Reads {
+		key := r
+		if r == "bigval" {
+			key = "GH_bigval"
+		}
+		srt := c.heapSort[key]
+		if srt == "" {
+			srt = "(Array Int Int)"
+			c.heapSort[key] = srt
+			c.heapType[key] = types.Typ[types.UntypedInt]
+		}
+		terms = append(terms, c.heapGet(st, key, srt, c.heapType[key]))
+		sorts = append(sorts, srt)
+	}
+	if !c.declSet[name] {
+		c.declSet[name] = true
+		c.decls = append(c.decls, "(declare-fun "+name+" ("+join(sorts)+") "+c.sortOf(rt)+")")
+	}
+	t := app(name, terms...)
+	if len(terms) == 0 {
+		t = name
+	}
+	c.assumeInv(st, t, rt)
+	return Val{T: t, Typ: rt}
+}
+
+func join(xs []string) string {
+	out := ""
+	for i, x := range xs {
+		if i > 0 {
+			out += " "
+		}
+		out += x
+	}
+	return out
+}
